@@ -95,9 +95,9 @@ PROPS["C18"] = dict(
     level="other",
     explanation="cloudevents FormatterFilter.Process / validate / sign / Rotate executed symbolically over all configurations (source nil/empty/set, schema nil/empty/set, arbitrary format string, signer absent/succeeding/failing, <=T listed types, predicate absent/true/false/error) and payload kinds (plain, ID, Data, both); json.Encoder.Encode, base64 and url.URL.String are uninterpreted/deterministic functions, so 'serialized is the exact unsigned document' and 'signer saw exactly those bytes' are term equalities decided by z3. Plus histories of events of listed / unlisted types interleaved with Rotate (signed iff listed, by the signer in force), payloads whose Data() returns nil, predicate (true, err), hostile text for ids and types in native replays.",
     jobs=[dict(pkg="./formatter_filters/cloudevents", harness=["cloudevents/cloudevents.go"], entries=r"^H_C18_", params=dict(quick=dict(T=1, STEPS=3), thorough=dict(T=3, STEPS=5)), shards=dict(quick=8, thorough=16))],
-    must_reach=["C18.invalid", "C18.emptyid", "C18.ok-signed", "C18.ok-unsigned", "C18.error", "C18.rotate", "C18.two.end", "C18.listing.end", "C18.history.end"],
+    must_reach=["C18.invalid", "C18.emptyid", "C18.ok-signed", "C18.ok-unsigned", "C18.error", "C18.rotate", "C18.two.end", "C18.listing.end", "C18.history.end", "C18.fresh-ids.end"],
     bounds=dict(quick="SignEventTypes <= 1; histories of <= 3 steps over {event of listed type 1/2, unlisted type, Rotate to signer A/B}", thorough="SignEventTypes <= 3; histories of <= 5 steps"),
-    assumptions=["event type non-empty (only such events come from Broker.Send)", "JSON text validity is trusted encoding/json", "url.URL.String modelled for path-only URLs as the path"],
+    assumptions=["event type non-empty (only such events come from Broker.Send)", "JSON text validity is trusted encoding/json", "url.URL.String modelled for path-only URLs as the path", "A-random: strings from the system's random source do not repeat"],
     trusted_base=COMMON_TRUST,
 )
 PROPS["C17"] = dict(PROPS["C11"], must_reach=["C17.flushall.ok", "C11.process.gated", "C17.flushall.after-earlier-close", "C11.history.end", "C17.staggered.end"])
